@@ -186,7 +186,7 @@ macro_rules! fixed_exec {
                 ("to_f64", "f") => ru(f64::from(p(0)).to_bits()),
                 ("to_f64", "nt") => ru(ToPrimitive::to_f64(&p(0)).unwrap().to_bits()),
                 // Display / FromStr round trip: result = parse(to_string(p))
-                ("str_roundtrip", "m") => { let s = format!("{}", p(0)); let q: $T = s.parse().ok()?; rp(q) }
+                ("str_roundtrip", "m") => { let s = format!("{}", p(0)); match s.parse::<$T>() { Ok(q) => rp(q), Err(_) => panic!("text round trip: the printed form does not parse back") } }
                 ("f64_roundtrip", "m") => rp(<$T>::from(f64::from(p(0)))),
                 // ---- C07 integers (two's complement image in x[0])
                 ("from_i8", "m") => rp(<$T>::from_i8(x[0] as i8)),
